@@ -99,7 +99,11 @@ fn main() {
                 println!("discarded: {d}");
             }
             if a.iter().any(|x| x == "--show") {
-                for t in &case.texts {
+                let mut texts = case.texts.clone();
+                if case.kind == "gram" {
+                    texts.push(props::gram_text(&case.bytes));
+                }
+                for t in &texts {
                     println!("--- text\n{t}");
                     if let Lexed::Ok(d) = lex(Variant::Rel, t) {
                         println!("{}", render(t, &d));
